@@ -108,22 +108,26 @@ def build(u):
 
     def prep_rev(f):
         u.count('R-seq', f.rewrite(r"\(&'this self\b", "(&'this mut self", expect=1))
-    emit_method(u, S, r'SourceView\b', 'rev_token_iter', 'sourceview::SourceView::rev_token_iter', prep=prep_rev)
+    emit_method(u, S, r'SourceView\b', 'rev_token_iter', 'sourceview::SourceView::rev_token_iter', sig_prep=prep_rev)
+
+    def sig_gofn(f):
+        u.count('R-seq', f.rewrite(r'(?s)\(\s*&self\b', '(&mut self', expect=1))
 
     def prep_gofn(f):
         expand_if_chain(f, u)
-        u.count('R-seq', f.rewrite(r'(?s)\(\s*&self\b', '(&mut self', expect=1))
         n = f.rewrite(r'self\.rev_token_iter\(token\)\.take\(128\)\.peekable\(\)', 'verif_take_peekable(self.rev_token_iter(token), 128)', expect=1)
         n += f.rewrite(r'\b([a-z_]+(?:\.\d)?) == Some\(([a-z_]+|"[a-z]*")\)', r'verif_opt_str_eq(\1, \2)', expect=2)
         u.count('R-shim-call', n)
-    emit_method(u, S, r'SourceView\b', 'get_original_function_name', 'sourceview::SourceView::get_original_function_name', prep=prep_gofn)
+    emit_method(u, S, r'SourceView\b', 'get_original_function_name', 'sourceview::SourceView::get_original_function_name', prep=prep_gofn, sig_prep=sig_gofn)
 
     # the position-based entry point on a regular map: lookup_token (proved in u2) then the walk
     import_method(u, T, r'SourceMap\b', 'lookup_token', 'types::SourceMap::lookup_token', 'u2_lookup.ctr', 'u2_lookup')
 
-    def prep_sm_gofn(f):
+    def sig_sm_gofn(f):
         u.count('R-seq', f.rewrite(r'\bsv: &SourceView\b', 'sv: &mut SourceView', expect=1))
+
+    def prep_sm_gofn(f):
         # R-and-then: `X.and_then(|p| E)` is `match X { Some(p) => E, None => None }` (the definition of Option::and_then; the closure would capture the `&mut` view)
         u.count('R-and-then', f.rewrite(r'(?s)self\.lookup_token\(line, col\)\s*\.and_then\(\|token\| (sv\.get_original_function_name\(token, minified_name\))\)',
                                         r'match self.lookup_token(line, col) { Some(token) => \1, None => None }', expect=1))
-    emit_method(u, T, r'SourceMap\b', 'get_original_function_name', 'types::SourceMap::get_original_function_name', prep=prep_sm_gofn)
+    emit_method(u, T, r'SourceMap\b', 'get_original_function_name', 'types::SourceMap::get_original_function_name', prep=prep_sm_gofn, sig_prep=sig_sm_gofn)
